@@ -299,6 +299,13 @@ func init() {
 		}
 		return filepath.Join(ss...)
 	})
+	reg("path/filepath.Base", func(i *interpreter, fr *frame, args []value) value {
+		s, ok := args[0].(string)
+		if !ok {
+			unsupportedf("filepath.Base of a symbolic path")
+		}
+		return filepath.Base(s)
+	})
 	reg("path/filepath.Dir", func(i *interpreter, fr *frame, args []value) value {
 		s, ok := args[0].(string)
 		if !ok {
